@@ -356,23 +356,28 @@ func verifLemma_C09_uint64map_roundtrip(p, q, r, s byte) {
 }
 
 // C09: iteration over the hash map (Begin / Next / ID / Len / Tag / Data) visits every
-// bucket from the first, groups the entries of one ID, orders the IDs within a bucket,
-// and ends after the last bucket. Same bounded shape as above plus an ID in bucket 0.
-func verifLemma_C09_uint64map_iteration(p, q, r, s, z byte) {
-	const a, b, c, d = uint64(5), uint64(9), uint64(6), uint64(4)
+// bucket from the first to the last, groups the entries of one ID (a group at the start
+// and a group at the end of a bucket), orders the IDs within a bucket, and ends after the
+// last bucket. Bounded shape: four buckets, seven entries under five IDs.
+func verifLemma_C09_uint64map_iteration(p, q, r, s, z, y byte) {
+	const a, b, c, d, e = uint64(5), uint64(9), uint64(6), uint64(4), uint64(7)
 	mb := NewUint64MapBuilder(2, 2)
 	mb.Reserve(b, 2, 2)
 	mb.Reserve(a, 1, 1)
 	mb.Reserve(c, 0, 1)
 	mb.Reserve(a, 3, 0)
 	mb.Reserve(d, 1, 1)
+	mb.Reserve(e, 2, 1)
+	mb.Reserve(b, 0, 0)
 	var w Buffer
 	_, err := mb.WriteHeader(&w, 0)
 	verifrt.Assert(err == nil, "header-written")
-	verifrt.Assert(mb.WriteItem(b, 2, []byte{q, r}, &w) == nil, "entry-b-written")
+	verifrt.Assert(mb.WriteItem(b, 2, []byte{q, r}, &w) == nil, "entry-b2-written")
 	verifrt.Assert(mb.WriteItem(c, 0, []byte{s}, &w) == nil, "entry-c-written")
 	verifrt.Assert(mb.WriteItem(a, 1, []byte{p}, &w) == nil, "entry-a1-written")
+	verifrt.Assert(mb.WriteItem(e, 2, []byte{y}, &w) == nil, "entry-e-written")
 	verifrt.Assert(mb.WriteItem(d, 1, []byte{z}, &w) == nil, "entry-d-written")
+	verifrt.Assert(mb.WriteItem(b, 0, []byte{}, &w) == nil, "entry-b0-written")
 	verifrt.Assert(mb.WriteItem(a, 3, []byte{}, &w) == nil, "entry-a3-written")
 	m := NewUint64Map(w.Bytes())
 	it := m.Begin()
@@ -382,9 +387,13 @@ func verifLemma_C09_uint64map_iteration(p, q, r, s, z byte) {
 	verifrt.Assert(it.ID() == a && it.Len() == 2, "entries-of-one-id-are-grouped")
 	verifrt.Assert((it.Tag(0) == 1 && it.Tag(1) == 3) || (it.Tag(0) == 3 && it.Tag(1) == 1), "both-entries-of-a")
 	verifrt.Assert(it.Next(), "third-item")
-	verifrt.Assert(it.ID() == b && it.Len() == 1 && it.Tag(0) == 2 && len(it.Data(0)) == 2 && it.Data(0)[0] == q && it.Data(0)[1] == r, "ids-in-a-bucket-are-ordered")
+	verifrt.Assert(it.ID() == b && it.Len() == 2, "ids-in-a-bucket-are-ordered-and-the-last-group-is-whole")
+	verifrt.Assert((it.Tag(0) == 2 && it.Tag(1) == 0 && len(it.Data(0)) == 2 && it.Data(0)[0] == q && it.Data(0)[1] == r && len(it.Data(1)) == 0) ||
+		(it.Tag(0) == 0 && it.Tag(1) == 2 && len(it.Data(1)) == 2 && it.Data(1)[0] == q && it.Data(1)[1] == r && len(it.Data(0)) == 0), "both-entries-of-b")
 	verifrt.Assert(it.Next(), "fourth-item")
 	verifrt.Assert(it.ID() == c && it.Len() == 1 && it.Tag(0) == 0 && it.Data(0)[0] == s, "next-bucket")
+	verifrt.Assert(it.Next(), "fifth-item")
+	verifrt.Assert(it.ID() == e && it.Len() == 1 && it.Tag(0) == 2 && it.Data(0)[0] == y, "last-bucket-is-visited")
 	verifrt.Assert(!it.Next(), "ends-after-the-last-bucket")
 }
 
